@@ -27,8 +27,8 @@ ASSUMPTIONS = c03.ASSUMPTIONS + ["spec list of detachable parts: py/vf/meta.py D
 
 
 def translate(ctx: C.Ctx) -> List[str]:
-    from props import c04
-    return c03.translate(ctx) + c04.translate(ctx)
+    from props import c04, c09
+    return c03.translate(ctx) + c04.translate(ctx) + c09.translate_select(ctx)
 
 
 def strip_canon(c: Any) -> Any:
